@@ -1131,6 +1131,8 @@ class Process(StateMachine, persistence.Savable, metaclass=ProcessStateMachineMe
         if self.has_terminated():
             return False
 
+        self._drop_withdrawn_request()
+
         if self.paused:
             # Already paused
             return True
@@ -1220,6 +1222,23 @@ class Process(StateMachine, persistence.Savable, metaclass=ProcessStateMachineMe
         action = self._create_interrupt_action(interrupt_exception)
         self._set_interrupt_action(action)
 
+    def _drop_withdrawn_request(self) -> None:
+        """Forget a pending pause or kill whose action was cancelled by whoever requested it: the request is withdrawn.
+
+        The interruption may already have been delivered to the state, in which case ``step`` has to ignore it when it
+        comes out.
+        """
+        action = self._interrupt_action
+        if action is None or not action.cancelled():
+            return
+
+        self._stale_interruptions += (action.cookie,)
+        if self._pausing is action:
+            self._pausing = None
+        if self._killing is action:
+            self._killing = None
+        self._interrupt_action = None
+
     def play(self) -> bool:
         """
         Play a process. Returns True if after this call the process is playing, False otherwise
@@ -1272,6 +1291,8 @@ class Process(StateMachine, persistence.Savable, metaclass=ProcessStateMachineMe
         if self.has_terminated():
             # Can't kill
             return False
+
+        self._drop_withdrawn_request()
 
         if self._killing:
             # Already killing
@@ -1395,6 +1416,8 @@ class Process(StateMachine, persistence.Savable, metaclass=ProcessStateMachineMe
             if self.has_terminated():
                 # Terminated while the step was in flight, e.g. failed by a scheduled callback that raised
                 return
+
+            self._drop_withdrawn_request()
 
             if self.future().cancelled() and self._killing is None:
                 # Cancelled while the step was in flight and the callback that kills the process has not come round yet
